@@ -412,7 +412,9 @@ theorem react_timeout_at_deadline (c : Cfg) (hwf : c.wf = true) (evs : List EvB)
       the expiry event — or the reaction to a (non-empty) `done` set, without critical failure and that does not
       complete the regular jobs, every job of which ended with no `tick` since (completions reported in the very
       instant of the deadline);
-    * cancelled: `e` is the delivery of the cancellation, requested with no `tick` since -/
+    * cancelled: `e` is the delivery of the cancellation, requested with no `tick` since;
+    * crashed: `e` is the failure of the orchestration, in place of the reaction to a (non-empty) `done` set every job
+      of which ended with no `tick` since -/
 def ExitCause (c : Cfg) (evs : List EvB) (e : EvB) (s : Nat) (st0 : StB) : Exit → Prop
   | .critical => e = .react s ∧ ∃ D, st0.a.rx s = some D ∧
       (∃ k ∈ D, c.critical k = true ∧ ∃ ex, st0.a.ph k = .done (.exc ex)) ∧
@@ -429,6 +431,8 @@ def ExitCause (c : Cfg) (evs : List EvB) (e : EvB) (s : Nat) (st0 : StB) : Exit 
           st0.nbDone s + (D.filter fun d => !c.forever d).length ≠ nbFinite c s ∧
           ∀ k ∈ D, k ∈ c.children s ∧ (st0.a.ph k).isDone = true ∧ CausedAt c evs (fun st e => jobEnds c st k e)))
   | .cancelled => e = .cancelArrive s ∧ CausedAt c evs (cancelsTask c s)
+  | .crashed => e = .orchFail s ∧ ∃ D, st0.a.rx s = some D ∧ D ≠ [] ∧
+      ∀ k ∈ D, k ∈ c.children s ∧ (st0.a.ph k).isDone = true ∧ CausedAt c evs (fun st e => jobEnds c st k e)
 
 /-- C05 / C08 / C09 "at that same instant" (1): in every accepted history, the step by which a run leaves its main
     loop (for reason `x`) happens with no passing of time since its cause -/
@@ -461,6 +465,10 @@ theorem exit_no_latency (c : Cfg) (hwf : c.wf = true) (evs : List EvB) (e : EvB)
   | cancelled =>
     subst hr
     exact ⟨rfl, cancel_no_latency c hwf evs s st0 st h0 h1⟩
+  | crashed =>
+    obtain ⟨he, D, hD⟩ := hr
+    exact ⟨he, D, hD, rx_nonempty c evs st0 h0 s D hD,
+      fun k hk => reacted_no_latency c hwf evs s st0 h0 hloop D hD k hk⟩
 
 /-- C05 / C08 / C09 "at that same instant" (2): the step by which a run leaves its main loop — separated by no `tick`
     from its cause — calls `cancel()` on every job of the run that is still queued or running, and starts nothing:
